@@ -142,11 +142,16 @@ Record flatcase := mkFC {
 
 Definition kv_eqb (a b : nat * Z) : bool := Nat.eqb (fst a) (fst b) && Z.eqb (snd a) (snd b).
 
+(* a dict is compared up to the order of its keys (keys are distinct) *)
+Definition fsame (a b : list (nat * Z)) : bool :=
+  Nat.eqb (length a) (length b)
+  && forallb (fun kv => match fget b (fst kv) with Some v => Z.eqb v (snd kv) | None => false end) a.
+
 Definition flat_agrees (c : flatcase) : bool :=
   match f_op c with
   | FUpdate strict pos =>
       match fupdate strict pos (f_state c), f_state_after c with
-      | Some a, Some b => list_eqb kv_eqb a b
+      | Some a, Some b => if strict then list_eqb kv_eqb a b else fsame a b
       | None, None => true
       | _, _ => false
       end
